@@ -390,3 +390,15 @@ Example C12_two_objects_nonvacuous :
   | _ => False
   end.
 Proof. vm_compute. repeat split. Qed.
+
+(* ---- the hypothesis "a borrowed object records no text block" ---------------------------------------- *)
+(* C12_make_owner asks for mwf m, whose fourth clause says that a borrowed object records no text block.  The
+   clause is not needed: only "hostText = ipFuture when ipFuture is set" is.  Blocks recorded by a borrowed
+   object are forgotten by make-owner (never looked at, never released) *)
+Theorem C12_make_owner_any_blocks : forall csize m s, nofault s -> mwf_host m -> m_owner m = false ->
+  exists m' s', make_owner_m csize m s = (URI_SUCCESS, m', s')
+    /\ erase m' = make_owner (erase m) /\ to_text (erase m') = to_text (erase m)
+    /\ m_owner m' = true /\ all_owned m' = true /\ depends_on_input m' = false
+    /\ mwf m' /\ fresh_blocks s s' m' /\ nofault s'.
+Proof. exact make_owner_any_blocks. Qed.
+Print Assumptions C12_make_owner_any_blocks.
